@@ -1274,8 +1274,13 @@ class Exec:
                     hi = bs[-1] if e.slice.upper is not None else None
                     if e.slice.step is not None:
                         raise PyvcUnsupported("slice step")
-                    if isinstance(v, Sym) and ((isinstance(lo, int) and lo < 0) or (isinstance(hi, int) and hi < 0)):
-                        raise PyvcUnsupported("negative slice bound on symbolic sequence")
+                    if isinstance(v, Sym) and isinstance(v.ty, SeqTy):
+                        n_ = Sym(IntT, z3.Length(v.e))
+                        # python slice semantics with constant negative bounds: s[:-k] / s[-k:] (clamped at 0)
+                        if isinstance(lo, int) and lo < 0:
+                            lo = v_ite(v_cmp(">=", n_, -lo), v_arith("+", n_, lo), 0)
+                        if isinstance(hi, int) and hi < 0:
+                            hi = v_ite(v_cmp(">=", n_, -hi), v_arith("+", n_, hi), 0)
                     yield v_slice(v, lo, hi), st3
                 parts = [p for p in (e.slice.lower, e.slice.upper) if p is not None]
                 yield from self.bind(self.exprs(parts, env, st2), on_b)
